@@ -28,7 +28,7 @@ func mk(id, rule string, p Profile, quick, thorough int, mon func(fw.Case, []str
 }
 
 var base = Profile{Targets: 3, Sets: 5, Faults: true, Verdicts: true, DevErrors: true, Injections: true,
-	Rollbacks: true, Serializable: true, Persistent: true, Deletes: true, MaxSteps: 150}
+	Rollbacks: true, Serializable: true, Persistent: true, Deletes: true, MaxSteps: 150, Burst: true}
 
 // C02 is the first protocol property wired; the others are registered in their own files.
 var C02 = mk("C02",
@@ -84,7 +84,7 @@ var C11P = mk("C11P",
 	refuse, 100, 3000, monitorC11)
 
 var multi = Profile{Targets: 3, Sets: 4, Faults: false, Verdicts: true, DevErrors: false, Injections: true,
-	Rollbacks: false, Serializable: true, Persistent: false, Deletes: true, MaxSteps: 160, MultiBias: true, VerdictBias: true}
+	Rollbacks: false, Serializable: true, Persistent: false, Deletes: true, MaxSteps: 200, MultiBias: true, VerdictBias: true, CleanPct: 70, Burst: true}
 
 // C01: multi-target transactions with rejecting plugins, failed and lost writes.
 var C01 = mk("C01",
